@@ -1,5 +1,5 @@
 (* Proofs about the fluent model (Tools/Fluent.v) against the tables of Tools/FluentSpec.v. *)
-From Coq Require Import String List NArith ZArith Bool Lia.
+From Coq Require Import String List NArith ZArith Bool Lia Sorted.
 From GV.Base Require Import Alist U128.
 From GV.Tools Require Import Fluent FluentSpec.
 Import ListNotations.
@@ -324,17 +324,29 @@ Qed.
 
 (* ================================================================== one client *)
 
-Definition inv1 (cl : client) : Prop := c_sending cl = true -> c_sendq cl = [].
+(* the send queue is empty while sending, and there are no queues before the first Start *)
+Definition inv1 (cl : client) : Prop :=
+  (c_sending cl = true -> c_sendq cl = []) /\ (c_started cl = false -> c_sent cl = [] /\ c_sendq cl = []).
 
 Lemma handshake_ops cl : flat_map m_ops (handshake cl) = [].
 Proof. unfold handshake. destruct (c_params cl), (c_elec0 cl); reflexivity. Qed.
 
-Lemma all_ops_enqueue cl m n cur : inv1 cl -> all_ops (enqueue cl m n cur) = all_ops cl ++ m_ops m.
+(* lifetime operations = those of the replaced client.Clients, then those of the current one *)
+Lemma all_ops_eq cl : all_ops cl = flat_map inc_ops (c_past cl) ++ cur_ops cl.
+Proof. unfold all_ops, incarnations. rewrite flat_map_app. simpl. rewrite app_nil_r. reflexivity. Qed.
+
+Lemma cur_ops_enqueue cl m n cur : inv1 cl -> cur_ops (enqueue cl m n cur) = cur_ops cl ++ m_ops m.
 Proof.
-  intros H. unfold all_ops, queued, enqueue. destruct (c_sending cl) eqn:E; simpl.
-  - rewrite (H E). rewrite !app_nil_r. rewrite flat_map_app. simpl. rewrite app_nil_r. reflexivity.
+  intros [H _]. unfold cur_ops, queued, enqueue. destruct (c_sending cl) eqn:E; simpl.
+  - rewrite (H eq_refl). rewrite !app_nil_r. rewrite flat_map_app. simpl. rewrite app_nil_r. reflexivity.
   - rewrite app_assoc. rewrite flat_map_app. simpl. rewrite app_nil_r. reflexivity.
 Qed.
+
+Lemma past_enqueue cl m n cur : c_past (enqueue cl m n cur) = c_past cl.
+Proof. unfold enqueue. destruct (c_sending cl); reflexivity. Qed.
+
+Lemma all_ops_enqueue cl m n cur : inv1 cl -> all_ops (enqueue cl m n cur) = all_ops cl ++ m_ops m.
+Proof. intros H. rewrite !all_ops_eq, past_enqueue, cur_ops_enqueue by auto. rewrite app_assoc. reflexivity. Qed.
 
 Lemma nseq_length a n : List.length (nseq a n) = n.
 Proof. revert a. induction n; intros a; simpl; auto. Qed.
@@ -363,6 +375,10 @@ Proof.
   intros H1 H2. unfold ops_of_call. rewrite H1, H2. rewrite map_length, combine_length, nseq_length. apply Nat.min_id.
 Qed.
 
+(* a call that is not AddEntry / ReplaceEntry / DeleteEntry prescribes no operation *)
+Lemma ops_of_call_none st cl cc : opk_of cc = None -> ops_of_call st cl cc = [].
+Proof. intros H. unfold ops_of_call. rewrite H. reflexivity. Qed.
+
 Lemma modify_ops st cl k bs cc : opk_of cc = Some (k, bs) -> inv1 cl ->
   all_ops (modify st cl k bs) = all_ops cl ++ ops_of_call st cl cc.
 Proof.
@@ -371,37 +387,53 @@ Proof.
   - unfold ops_of_call. rewrite Hk, Es. rewrite app_nil_r. reflexivity.
 Qed.
 
-(* what a client call adds to the operations queued *)
+(* Start: the operations of the replaced client.Client move to the past, none is lost or added *)
+Lemma start_ops st cl : inv1 cl -> all_ops (client_step st cl CStart) = all_ops cl.
+Proof.
+  intros [_ H0]. simpl client_step.
+  destruct ((c_mode cl =? 2) && _); [reflexivity|].
+  unfold all_ops, incarnations. simpl. destruct (c_started cl) eqn:Es.
+  - rewrite !flat_map_app. simpl. rewrite !app_nil_r. reflexivity.
+  - destruct (H0 eq_refl) as [-> ->]. rewrite !app_nil_r. rewrite !flat_map_app. reflexivity.
+Qed.
+
+(* what a client call adds to the operations queued over the client's life *)
 Lemma client_step_ops st cl cc : inv1 cl -> all_ops (client_step st cl cc) = all_ops cl ++ ops_of_call st cl cc.
 Proof.
-  intros Hi. destruct cc; simpl client_step;
-    try (unfold all_ops, queued, ops_of_call; simpl; rewrite app_nil_r; reflexivity);
-    try (apply modify_ops; auto; reflexivity).
+  intros Hi. destruct cc;
+    try (simpl client_step; unfold all_ops, incarnations, ops_of_call; simpl; rewrite app_nil_r; reflexivity);
+    try (simpl client_step; apply modify_ops; auto; reflexivity).
   - (* Start *)
-    unfold ops_of_call; simpl. rewrite app_nil_r.
-    destruct (c_started cl); [reflexivity|].
-    destruct ((c_mode cl =? 2) && _); reflexivity.
+    rewrite start_ops by auto. unfold ops_of_call; simpl. rewrite app_nil_r. reflexivity.
+  - (* Stop *)
+    simpl client_step. unfold ops_of_call; simpl. rewrite app_nil_r. destruct (c_started cl); reflexivity.
   - (* StartSending *)
-    unfold ops_of_call; simpl. rewrite app_nil_r.
-    destruct (c_started cl && negb (c_sending cl)); [|reflexivity].
-    unfold all_ops, queued. simpl. rewrite !app_nil_r.
+    simpl client_step. unfold ops_of_call; simpl. rewrite app_nil_r.
+    destruct (c_started cl && negb (c_sending cl) && negb (c_stopped cl)); [|reflexivity].
+    rewrite !all_ops_eq. simpl c_past. f_equal.
+    unfold cur_ops, queued. simpl. rewrite !app_nil_r.
     rewrite !flat_map_app, handshake_ops. reflexivity.
   - (* UpdateElectionID *)
-    unfold ops_of_call; simpl. rewrite app_nil_r.
+    simpl client_step. unfold ops_of_call; simpl. rewrite app_nil_r.
     destruct (c_started cl); [|reflexivity]. rewrite all_ops_enqueue by auto. simpl. rewrite app_nil_r. reflexivity.
 Qed.
 
-Lemma inv1_enqueue cl m n cur : inv1 cl -> inv1 (enqueue cl m n cur).
+Lemma inv1_enqueue cl m n cur : c_started cl = true -> inv1 cl -> inv1 (enqueue cl m n cur).
 Proof.
-  unfold inv1, enqueue. intros H. destruct (c_sending cl) eqn:E; simpl; intros H'; [auto|congruence].
+  unfold inv1, enqueue. intros Hs [H _]. destruct (c_sending cl) eqn:E; simpl; split; intros H'; try congruence; auto.
 Qed.
 
 Lemma client_step_inv1 st cl cc : inv1 cl -> inv1 (client_step st cl cc).
 Proof.
   intros Hi. destruct cc; simpl client_step; try exact Hi;
-    try (unfold modify; destruct (c_started cl); [apply inv1_enqueue|]; exact Hi).
-  - destruct (c_started cl); [exact Hi|]. destruct ((c_mode cl =? 2) && _); exact Hi.
-  - destruct (c_started cl && negb (c_sending cl)); [|exact Hi]. intros _. reflexivity.
+    try (unfold modify; destruct (c_started cl) eqn:Es; [apply inv1_enqueue; auto|]; exact Hi).
+  - (* Start *)
+    destruct ((c_mode cl =? 2) && _); [exact Hi|]. split; simpl; [reflexivity|discriminate].
+  - (* Stop *)
+    destruct (c_started cl) eqn:Es; [|exact Hi]. split; simpl; [discriminate|congruence].
+  - (* StartSending *)
+    destruct (c_started cl) eqn:Es; simpl; [|exact Hi].
+    destruct (negb (c_sending cl) && negb (c_stopped cl)); [|exact Hi]. split; simpl; [reflexivity|congruence].
 Qed.
 
 Lemma client_step_count st cl cc :
@@ -414,8 +446,9 @@ Proof.
     - unfold ops_of_call. rewrite Hk, Es. simpl. lia. }
   destruct cc; simpl client_step; try (apply Hm; reflexivity);
     try (unfold ops_of_call; simpl; lia).
-  - unfold ops_of_call; simpl. destruct (c_started cl); [lia|]. destruct ((c_mode cl =? 2) && _); simpl; lia.
-  - unfold ops_of_call; simpl. destruct (c_started cl && negb (c_sending cl)); simpl; lia.
+  - unfold ops_of_call; simpl. destruct ((c_mode cl =? 2) && _); simpl; lia.
+  - unfold ops_of_call; simpl. destruct (c_started cl); simpl; lia.
+  - unfold ops_of_call; simpl. destruct (c_started cl && negb (c_sending cl) && negb (c_stopped cl)); simpl; lia.
   - unfold ops_of_call; simpl. destruct (c_started cl); [|lia]. unfold enqueue. destruct (c_sending cl); simpl; lia.
 Qed.
 
@@ -429,7 +462,7 @@ Proof.
   reflexivity.
 Qed.
 
-(* the invariant behind C18_ids *)
+(* the invariant behind C18_ids: over the whole life of the fluent client, restarts included *)
 Definition cinv (cl : client) : Prop :=
   inv1 cl /\ c_count cl = N.of_nat (List.length (all_ops cl))
   /\ map o_id (all_ops cl) = nseq 1 (List.length (all_ops cl)).
@@ -444,6 +477,79 @@ Proof.
   - rewrite client_step_count. lia.
   - rewrite map_app, Hids, ops_of_call_ids, nseq_app. f_equal. f_equal. lia.
 Qed.
+
+(* ---- the lifecycle calls ---- *)
+
+(* the replaced client.Clients are never touched again: c_past only grows at its end *)
+Lemma client_step_past st cl cc : exists l, c_past (client_step st cl cc) = c_past cl ++ l.
+Proof.
+  destruct cc; simpl client_step;
+    try (exists []; rewrite app_nil_r; reflexivity);
+    try (unfold modify; destruct (c_started cl); [rewrite past_enqueue|]; exists []; rewrite app_nil_r; reflexivity).
+  - destruct ((c_mode cl =? 2) && _); [exists []; rewrite app_nil_r; reflexivity|]. eexists. reflexivity.
+  - destruct (c_started cl); exists []; rewrite app_nil_r; reflexivity.
+  - destruct (c_started cl && negb (c_sending cl) && negb (c_stopped cl)); exists []; rewrite app_nil_r; reflexivity.
+Qed.
+
+(* Start keeps what belongs to the fluent client: connection settings, opCount, currentElectionID *)
+Lemma start_keeps st cl :
+  let cl' := client_step st cl CStart in
+  c_count cl' = c_count cl /\ c_cur cl' = c_cur cl /\ c_mode cl' = c_mode cl /\ c_init cl' = c_init cl
+  /\ c_persist cl' = c_persist cl /\ c_fiback cl' = c_fiback cl.
+Proof. simpl. destruct ((c_mode cl =? 2) && _); repeat split. Qed.
+
+(* a Start that passes the election-id check yields a fresh client.Client *)
+Lemma start_fresh st cl :
+  (c_mode cl =? 2) && (match c_init cl with None => true | Some _ => false end) = false ->
+  let cl' := client_step st cl CStart in
+  c_started cl' = true /\ c_sending cl' = false /\ c_stopped cl' = false /\ queued cl' = [] /\ c_fatals cl' = c_fatals cl
+  /\ c_params cl' = start_params cl /\ c_elec0 cl' = (if c_mode cl =? 2 then c_init cl else None)
+  /\ c_past cl' = c_past cl ++ (if c_started cl then [MkInc (c_sent cl) (c_sendq cl)] else []).
+Proof. intros H. simpl. rewrite H. repeat split. Qed.
+
+(* a Start that fails it changes nothing but the count of fatal errors *)
+Lemma start_fatal st cl :
+  (c_mode cl =? 2) && (match c_init cl with None => true | Some _ => false end) = true ->
+  let cl' := client_step st cl CStart in
+  c_fatals cl' = c_fatals cl + 1 /\ c_started cl' = c_started cl /\ c_sending cl' = c_sending cl /\ c_stopped cl' = c_stopped cl
+  /\ c_sent cl' = c_sent cl /\ c_sendq cl' = c_sendq cl /\ c_past cl' = c_past cl.
+Proof. intros H. simpl. rewrite H. repeat split. Qed.
+
+(* Stop keeps everything but the sending / stopped flags of the current client.Client *)
+Lemma stop_keeps st cl :
+  let cl' := client_step st cl CStop in
+  c_count cl' = c_count cl /\ c_cur cl' = c_cur cl /\ c_mode cl' = c_mode cl /\ c_init cl' = c_init cl
+  /\ c_started cl' = c_started cl /\ c_sent cl' = c_sent cl /\ c_sendq cl' = c_sendq cl /\ c_past cl' = c_past cl
+  /\ (c_started cl = true -> c_sending cl' = false /\ c_stopped cl' = true).
+Proof. simpl. destruct (c_started cl) eqn:E; simpl; repeat split; auto; discriminate. Qed.
+
+(* ---- strictly increasing sequences ---- *)
+
+Lemma nseq_lower a n x : In x (nseq a n) -> a <= x.
+Proof. revert a. induction n; intros a; simpl; [intros []|]. intros [<-|H]; [lia|]. apply IHn in H. lia. Qed.
+
+Lemma nseq_sorted a n : StronglySorted N.lt (nseq a n).
+Proof.
+  revert a. induction n; intros a; simpl; constructor; auto.
+  apply Forall_forall. intros x Hx. apply nseq_lower in Hx. lia.
+Qed.
+
+Lemma sorted_lt_nodup l : StronglySorted N.lt l -> NoDup l.
+Proof.
+  induction 1 as [|a l Hs IH Hf]; constructor; auto.
+  intros Hin. rewrite Forall_forall in Hf. specialize (Hf a Hin). lia.
+Qed.
+
+Lemma sorted_app_lt (l1 l2 : list N) : StronglySorted N.lt (l1 ++ l2) -> forall x y, In x l1 -> In y l2 -> x < y.
+Proof.
+  induction l1 as [|a l1 IH]; simpl; intros Hs x y Hx Hy; [contradiction|].
+  inversion Hs as [|? ? Hs' Hf]; subst. destruct Hx as [<-|Hx].
+  - rewrite Forall_forall in Hf. apply Hf. apply in_or_app. auto.
+  - eapply IH; eauto.
+Qed.
+
+Lemma sorted_app_r (l1 l2 : list N) : StronglySorted N.lt (l1 ++ l2) -> StronglySorted N.lt l2.
+Proof. induction l1 as [|a l1 IH]; simpl; auto. intros Hs. inversion Hs; subst. auto. Qed.
 
 (* ================================================================== clients in a program *)
 
@@ -526,6 +632,99 @@ Proof.
     + rewrite cget_step_other; [exists l; exact Hl|]. intros cc' E. inversion E. congruence.
 Qed.
 
+(* ---- the lifecycle of a client in a program ---- *)
+
+(* C18_ids_increasing_across_restarts: over the whole life of the fluent client the ids are strictly
+   increasing in queue order, hence distinct; and every operation of an earlier client.Client has a
+   smaller id than every operation of a later one (the current one included) *)
+Theorem ids_across_restarts p c :
+  let cl := cget (st_clients (run p)) c in
+  StronglySorted N.lt (map o_id (all_ops cl))
+  /\ NoDup (map o_id (all_ops cl))
+  /\ (forall l1 a l2 b l3 x y, incarnations cl = l1 ++ a :: l2 ++ b :: l3 ->
+        In x (inc_ops a) -> In y (inc_ops b) -> o_id x < o_id y).
+Proof.
+  cbv zeta. destruct (all_cinv p c) as (_ & _ & Hids).
+  assert (Hs : StronglySorted N.lt (map o_id (all_ops (cget (st_clients (run p)) c)))).
+  { rewrite Hids. apply nseq_sorted. }
+  split; [exact Hs|]. split; [apply sorted_lt_nodup; exact Hs|].
+  intros l1 a l2 b l3 x y Hinc Hx Hy.
+  unfold all_ops in Hs. rewrite Hinc in Hs.
+  rewrite flat_map_app in Hs. simpl in Hs. rewrite flat_map_app in Hs. simpl in Hs.
+  rewrite !map_app in Hs. apply sorted_app_r in Hs.
+  apply (sorted_app_lt _ _ Hs (o_id x) (o_id y)).
+  - apply in_map. exact Hx.
+  - apply in_or_app. right. apply in_or_app. left. apply in_map. exact Hy.
+Qed.
+
+(* the replaced client.Clients are never touched again *)
+Theorem past_stable p q c :
+  exists l, c_past (cget (st_clients (run (p ++ q))) c) = c_past (cget (st_clients (run p)) c) ++ l.
+Proof.
+  induction q as [|x q IH] using rev_ind.
+  - exists []. rewrite !app_nil_r. reflexivity.
+  - destruct IH as [l Hl]. rewrite app_assoc, run_snoc.
+    destruct x as [y k|y cl|y|y cc];
+      try (rewrite cget_step_other by (intros ? ?; discriminate); exists l; exact Hl).
+    destruct (N.eq_dec y c) as [->|Hne].
+    + rewrite cget_step_same. destruct (client_step_past (st_store (run (p ++ q))) (cget (st_clients (run (p ++ q))) c) cc) as [l' Hl'].
+      rewrite Hl', Hl, <- app_assoc. eexists. reflexivity.
+    + rewrite cget_step_other; [exists l; exact Hl|]. intros cc' E. inversion E. congruence.
+Qed.
+
+(* a call that is not AddEntry / ReplaceEntry / DeleteEntry — Start, Stop, StartSending, UpdateElectionID,
+   the connection calls — neither queues an operation nor consumes an id *)
+Theorem other_calls_keep_counter p c cc : opk_of cc = None ->
+  let cl := cget (st_clients (run p)) c in
+  let cl' := cget (st_clients (run (p ++ [SClient c cc]))) c in
+  c_count cl' = c_count cl /\ all_ops cl' = all_ops cl.
+Proof.
+  intros Hk. cbv zeta. rewrite run_snoc, cget_step_same. split.
+  - rewrite client_step_count, ops_of_call_none by auto. simpl. lia.
+  - rewrite client_step_ops by (apply all_cinv). rewrite ops_of_call_none by auto. apply app_nil_r.
+Qed.
+
+(* Start (first or again, after Stop or not) keeps what belongs to the fluent client *)
+Theorem restart_keeps p c :
+  let cl := cget (st_clients (run p)) c in
+  let cl' := cget (st_clients (run (p ++ [SClient c CStart]))) c in
+  c_count cl' = c_count cl /\ c_cur cl' = c_cur cl /\ c_mode cl' = c_mode cl /\ c_init cl' = c_init cl
+  /\ c_persist cl' = c_persist cl /\ c_fiback cl' = c_fiback cl /\ all_ops cl' = all_ops cl.
+Proof.
+  cbv zeta. rewrite run_snoc, cget_step_same.
+  destruct (start_keeps (st_store (run p)) (cget (st_clients (run p)) c)) as (H1 & H2 & H3 & H4 & H5 & H6).
+  repeat (split; [assumption|]). apply start_ops. apply all_cinv.
+Qed.
+
+(* ... and, when it passes the election-id check, gives it a fresh client.Client: nothing queued, not
+   sending, session parameters and handshake election id from the connection settings as they are now;
+   the replaced one (if there was one) becomes the last of the past ones, as it was *)
+Theorem restart_fresh p c :
+  let cl := cget (st_clients (run p)) c in
+  let cl' := cget (st_clients (run (p ++ [SClient c CStart]))) c in
+  (c_mode cl =? 2) && (match c_init cl with None => true | Some _ => false end) = false ->
+  c_started cl' = true /\ c_sending cl' = false /\ c_stopped cl' = false /\ queued cl' = [] /\ c_fatals cl' = c_fatals cl
+  /\ c_params cl' = start_params cl /\ c_elec0 cl' = (if c_mode cl =? 2 then c_init cl else None)
+  /\ c_past cl' = c_past cl ++ (if c_started cl then [MkInc (c_sent cl) (c_sendq cl)] else []).
+Proof. cbv zeta. rewrite run_snoc, cget_step_same. apply start_fresh. Qed.
+
+Theorem restart_fatal p c :
+  let cl := cget (st_clients (run p)) c in
+  let cl' := cget (st_clients (run (p ++ [SClient c CStart]))) c in
+  (c_mode cl =? 2) && (match c_init cl with None => true | Some _ => false end) = true ->
+  c_fatals cl' = c_fatals cl + 1 /\ c_started cl' = c_started cl /\ c_sending cl' = c_sending cl /\ c_stopped cl' = c_stopped cl
+  /\ c_sent cl' = c_sent cl /\ c_sendq cl' = c_sendq cl /\ c_past cl' = c_past cl.
+Proof. cbv zeta. rewrite run_snoc, cget_step_same. apply start_fatal. Qed.
+
+(* Stop: the current client.Client stops sending and stays in place (later calls queue on it, unsent) *)
+Theorem stop_exact p c :
+  let cl := cget (st_clients (run p)) c in
+  let cl' := cget (st_clients (run (p ++ [SClient c CStop]))) c in
+  c_count cl' = c_count cl /\ c_cur cl' = c_cur cl /\ c_mode cl' = c_mode cl /\ c_init cl' = c_init cl
+  /\ c_started cl' = c_started cl /\ c_sent cl' = c_sent cl /\ c_sendq cl' = c_sendq cl /\ c_past cl' = c_past cl
+  /\ (c_started cl = true -> c_sending cl' = false /\ c_stopped cl' = true).
+Proof. cbv zeta. rewrite run_snoc, cget_step_same. apply stop_keeps. Qed.
+
 (* ---- current election id and redundancy mode: the argument of the last call that sets them ---- *)
 
 Lemma enqueue_cur cl m n cur : c_cur (enqueue cl m n cur) = cur.
@@ -540,8 +739,9 @@ Lemma client_step_cur st cl cc :
 Proof.
   destruct cc; simpl; try reflexivity;
     try (unfold modify; destruct (c_started cl); [apply enqueue_cur|reflexivity]).
-  - destruct (c_started cl); [reflexivity|]. destruct ((c_mode cl =? 2) && _); reflexivity.
-  - destruct (c_started cl && negb (c_sending cl)); reflexivity.
+  - destruct ((c_mode cl =? 2) && _); reflexivity.
+  - destruct (c_started cl); reflexivity.
+  - destruct (c_started cl && negb (c_sending cl) && negb (c_stopped cl)); reflexivity.
 Qed.
 
 Lemma client_step_mode st cl cc :
@@ -549,8 +749,9 @@ Lemma client_step_mode st cl cc :
 Proof.
   destruct cc; simpl; try reflexivity;
     try (unfold modify; destruct (c_started cl); [apply enqueue_mode|reflexivity]).
-  - destruct (c_started cl); [reflexivity|]. destruct ((c_mode cl =? 2) && _); reflexivity.
-  - destruct (c_started cl && negb (c_sending cl)); reflexivity.
+  - destruct ((c_mode cl =? 2) && _); reflexivity.
+  - destruct (c_started cl); reflexivity.
+  - destruct (c_started cl && negb (c_sending cl) && negb (c_stopped cl)); reflexivity.
 Qed.
 
 Theorem cur_exact p c :
